@@ -33,14 +33,18 @@ from mpyc import gfpx  # noqa: E402
 # module interface constants
 # ---------------------------------------------------------------------------------------------
 LEVEL = 'proof'
-LEAN_MODULES = ['MpycV.Props.C23']
-LEAN_NAMESPACES = ['MpycV.C23']
+LEAN_MODULES = ['MpycV.Props.C23', 'MpycV.PropsGen.C23Src']
+LEAN_NAMESPACES = ['MpycV.C23', 'MpycV.C23Src']
 REQUIRED_THEOREMS = [
     'normalised_preserved', 'normalised_preserved_div', 'toPoly_injective', 'toPoly_hom', 'sq_eq_mul_self',
     'ring_laws', 'divmod_spec', 'mod_floordiv_consistent', 'gcd_spec', 'gcdext_bezout', 'invert_spec',
     'invert_reduced', 'powmod_spec', 'pow_spec', 'powmod_neg_spec', 'powmod_unreduced_witness',
     'bin_list_agree', 'bin_eval_agree_odd', 'bin_eval_even_finding', 'bin_eval_even_witness',
     'lt_lex', 'int_roundtrip', 'eval_horner', 'table_p3_deg2',
+    # source tie (PropsGen/C23Src.lean): definitions generated from the current gfpx.py = hand-written model
+    'add_src_eq', 'sub_src_eq', 'sq_src_eq', 'mul_src_eq', 'mul_same_src_eq', 'divmod_src_eq', 'mod_src_eq',
+    'mod_N_src_eq', 'monic_src_eq', 'monic_lc_src_eq', 'gcd_src_eq', 'gcdext_src_eq', 'invert_src_eq',
+    'powmod_src_eq', 'powmod_N_src_eq', 'degree_src_eq', 'to_int_src_eq', 'from_int_src_eq', 'divmod_src_spec',
 ]
 
 RULE = (
@@ -80,6 +84,10 @@ ASSUMPTIONS = [
     'Python int arithmetic, itertools, random and the harness oracle gfpx_oracle.py are correct',
 ]
 TRUSTED = ['harness/gfpx_oracle.py (independent schoolbook reference)',
+           'harness/py2lean_gfpx.py: the Python->Lean translation rules listed in its docstring (lists as values with a '
+           'syntactic no-alias check, Python indexing guards, the strip idiom, % p / // p as Int.emod / ediv for the '
+           'positive modulus, gmpy2.invert = the C25 model of the stub, `a is b` as a Bool parameter, generic pyFor / loop '
+           'combinators, hand-written fuels)',
            'lean/Drv/GFpX.lean line-protocol driver (parsing/printing of the model values)',
            'native compilation (lean -c + leanc) of the driver and the two model files, used for speed; a seeded '
            'probe of every run is answered by the interpreter too and must be identical, else the interpreter is used']
@@ -1231,7 +1239,7 @@ def run_jobs(ctx, jobs, modname, max_violations=3):
     for k, js in enumerate(jobs):
         js.update(mod=modname, pid=ctx.property_id, tier=ctx.tier, seed0=ctx.seed)
         js.setdefault('what', f"{js['kind']}[{js.get('dom', '')}]#{k}")
-    nproc = max(1, min(int(os.environ.get('VERIF_PROCS', '16')), (os.cpu_count() or 2), len(jobs)))
+    nproc = max(1, min(int(os.environ.get('VERIF_PROCS', '4')), (os.cpu_count() or 2), len(jobs)))
     batches = [[] for _ in range(nproc)]
     load = [0.0] * nproc
     for k in sorted(range(len(jobs)), key=lambda k: (-jobs[k].get('weight', 1), k)):   # longest first, least loaded
@@ -1403,6 +1411,102 @@ def build_jobs(ctx, nodriver=False):
     return jobs
 
 
+
+# ---------------------------------------------------------------------------------------------
+# source translator tie (harness/py2lean_gfpx.py): regenerate lean/MpycV/Generated/GfpxSrc.lean from the CURRENT
+# gfpx.py; PropsGen/C23Src.lean (and C24Src.lean) prove the generated definitions equal to the model
+# ---------------------------------------------------------------------------------------------
+import py2lean_gfpx  # noqa: E402
+
+GEN_FILE = os.path.join(common.LEAN_DIR, 'MpycV', 'Generated', 'GfpxSrc.lean')
+MIRROR_FILE = os.path.join(common.LEAN_DIR, 'MpycV', 'Lemmas', 'GfpxSrcMirror.lean')
+GFPX_SRC = os.path.join(repo_path.REPO, 'mpyc', 'gfpx.py')
+# callers (in the translated source) of each translated method: who is affected when it changes
+SRC_DEPENDENTS = {
+    'degree': ['is_irreducible'], 'to_int': ['next_irreducible'], 'from_int': ['powmod', 'powmod_N', 'next_irreducible'],
+    'monic': ['gcd'], 'monic_lc': ['gcdext'], 'sub': ['gcdext', 'invert', 'is_irreducible'],
+    'sq': ['mul', 'powmod', 'powmod_N'], 'mul': ['gcdext', 'invert', 'powmod', 'powmod_N'],
+    'mod_N': ['powmod_N'], 'mod': ['gcd', 'powmod'], 'divmod': ['gcdext', 'invert'], 'gcd': ['is_irreducible'],
+    'invert': ['powmod'], 'powmod': ['is_irreducible'], 'is_irreducible': ['next_irreducible'],
+}
+# operations of the job machinery that exercise a translated method (for the focused search)
+SRC_OPS = {
+    'degree': ['degree'], 'to_int': ['toint'], 'from_int': ['pos'], 'monic': ['monic'], 'monic_lc': ['monicinv'],
+    'add': ['add'], 'sub': ['sub'], 'sq': ['sq'], 'mul': ['mul'], 'mod': ['mod'], 'mod_N': ['powmod'],
+    'divmod': ['divmod', 'floordiv'], 'gcd': ['gcd'], 'gcdext': ['gcdext'], 'invert': ['invert'],
+    'powmod': ['powmod'], 'powmod_N': ['powmod'], 'is_irreducible': ['irr', 'gf'],
+    'next_irreducible': ['nextirr', 'findirr'],
+}
+
+
+def _translate_current():
+    try:
+        text = open(GFPX_SRC).read()
+    except OSError as exc:
+        return py2lean_gfpx.translate_source('')[0], {'*': f'cannot read {GFPX_SRC}: {exc}'}
+    return py2lean_gfpx.translate_source(text)
+
+
+def generate(ctx):
+    """source translator: current mpyc/gfpx.py -> lean/MpycV/Generated/GfpxSrc.lean (deterministic, atomic)"""
+    text, problems = _translate_current()
+    os.makedirs(os.path.dirname(GEN_FILE), exist_ok=True)
+    old = open(GEN_FILE).read() if os.path.exists(GEN_FILE) else None
+    if old != text:
+        tmp = GEN_FILE + f'.tmp{os.getpid()}'
+        with open(tmp, 'w') as f:
+            f.write(text)
+        os.replace(tmp, GEN_FILE)
+    for fn_, msg in problems.items():
+        ctx.note(f'py2lean_gfpx: {fn_} not translated: {msg}')
+    changed = changed_functions(text)
+    if changed:
+        ctx.note('py2lean_gfpx: translated text differs from the pinned mirror for: ' + ', '.join(changed))
+    ctx.count('py2lean_gfpx/functions translated', len(py2lean_gfpx.ORDER) - len([k for k in problems if k != '*']))
+
+
+def _blocks(text):
+    out, cur = {}, None
+    for ln in text.split('\n'):
+        if ln.startswith('-- ≙ gfpx.py:'):
+            cur = None           # the line number may move without any change of the function
+            continue
+        if (ln.startswith('def ') or ln.startswith('/-- NOT TRANSLATED')) and ' ' in ln[4:]:
+            if ln.startswith('def '):
+                cur = ln[4:].split()[0].split('.')[0]
+                out.setdefault(cur, [])
+        if ln.startswith('end MpycV.'):
+            cur = None
+        if cur is not None:
+            out[cur].append(ln)
+    return {k: '\n'.join(v).strip() for k, v in out.items()}
+
+
+def changed_functions(text=None):
+    """translated methods whose Lean text differs from the mirror the bridge lemmas are proved for"""
+    if text is None:
+        text = _translate_current()[0]
+    try:
+        mirror = _blocks(open(MIRROR_FILE).read())
+    except OSError:
+        return list(py2lean_gfpx.ORDER)
+    cur = _blocks(text)
+    return [f for f in py2lean_gfpx.ORDER if cur.get(f) != mirror.get(f)]
+
+
+def affected_ops():
+    """(changed methods, operations of the job table that reach them directly or through callers)"""
+    changed = changed_functions()
+    todo, seen = list(changed), set()
+    while todo:
+        f = todo.pop()
+        if f not in seen:
+            seen.add(f)
+            todo.extend(SRC_DEPENDENTS.get(f, []))
+    ops = sorted({o for f in seen for o in SRC_OPS.get(f, [])})
+    return changed, sorted(seen), ops
+
+
 def run(ctx):
     prepare_driver(ctx)
     jobs = build_jobs(ctx)
@@ -1411,7 +1515,16 @@ def run(ctx):
 
 
 def search(ctx):
-    """Bigger oracle-only random search (no Lean driver) on the real code."""
+    """Oracle-only search on the real code (no Lean driver), called when the proof or the correspondence broke.  When the
+    break comes from the source tie, the methods whose translation changed (and their callers) are reported and swept
+    first: the whole quick domain with every entry point, then a bigger random search on many primes."""
+    changed, reach, ops = affected_ops()
+    if changed:
+        ctx.note('source tie: changed methods ' + ', '.join(changed) + '; reached: ' + ', '.join(reach)
+                 + '; operations swept first: ' + ', '.join(ops))
+    run_jobs(ctx, build_jobs(ctx, nodriver=True), __name__)
+    if ctx.violations:
+        return
     jobs = []
     primes = ['2b', '2l', '3', '5', '7', '11', '13', '101', '257', '65537', str(P61), str(2 ** 127 - 1)]
     for dname in primes:
